@@ -54,6 +54,7 @@ struct Globals {
     std::set<LockState *> locks;
     VThread *lastStarted = nullptr;          // the thread object most recently start()ed (harness: "the worker")
     std::function<void(LockState *, int /*me*/)> onContend; // a thread is about to wait for a lock somebody else holds
+    std::function<void()> onSleep;           // a thread is about to sleep / poll (oracle: a logging call never waits for the logger thread)
     long timedLockTimeouts = 0;
 };
 Globals &G();
@@ -393,10 +394,10 @@ public:
     void setStackSize(uint) { }
     static int idealThreadCount() { return 4; }
     bool m_interrupt = false;
-    static void msleep(unsigned long) { vs::point("sleep", nullptr, /* voluntary */ true); }
-    static void sleep(unsigned long) { vs::point("sleep", nullptr, true); }
-    static void usleep(unsigned long) { vs::point("sleep", nullptr, true); }
-    static void yieldCurrentThread() { vs::point("sleep", nullptr, true); }
+    static void msleep(unsigned long) { if (G().onSleep) G().onSleep(); vs::point("sleep", nullptr, /* voluntary */ true); }
+    static void sleep(unsigned long) { msleep(0); }
+    static void usleep(unsigned long) { msleep(0); }
+    static void yieldCurrentThread() { msleep(0); }
     static VThread *currentThread() { return currentThreadObject(); }
     static Qt::HANDLE currentThreadId() { return ::QThread::currentThreadId(); } // the real id: LogMessage copies it, sinks compare it
     void finished() { }  // signal (identity only)
